@@ -630,7 +630,6 @@ func main() {
 		defer cleanupScratch()
 		pool.Serve(map[string]pool.Handler{"tok": tokWorker, "bytes": byteWorker, "corpus": corpusWorker, "ladder": ladderWorker, "prog": progWorker, "reduce": reduceWorker, "one": oneWorker})
 	}
-	bench()
 	c := ev.New("C01")
 	if c.Replay != "" {
 		replay(c)
